@@ -607,6 +607,13 @@ class FnAnalysis:
                             and e.c['fidx'] < len(st_['rv']['ops']):
                         pfa = self.an.fa(parent) if hasattr(self.an, 'fa') else FnAnalysis(self.an, parent)
                         return pfa.length(norm(pfa.P.operand(st_['rv']['ops'][e.c['fidx']], b_, i_)), b_, depth + 10)
+        if e.k == 'call' and last(e.name or '') in ('remainder', 'into_remainder') and e.args:
+            # the left-over of x.chunks_exact(k): len(x) % k elements (std contract), i.e. at most k - 1
+            src_ = strip(e.args[0])
+            if src_.k == 'call' and last(src_.name or '') in ('chunks_exact', 'chunks_exact_mut', 'rchunks_exact') and len(src_.args) == 2:
+                kk_ = const_int(src_.args[1])
+                if kk_ is not None and kk_ >= 1:
+                    return (0, kk_ - 1)
         if e.k == 'param':
             n = array_len(e.ty)
             if n is not None:
@@ -894,6 +901,37 @@ class FnAnalysis:
                 continue
             if after_possible and not before and a.block != block and block not in fn.reachable(a.block) and not a.in_loop:
                 continue              # strictly later on every path: it has not happened yet at this point
+            if a.in_loop and a.kind == 'bytes' and before and a.elem is not None:
+                # `for part in [a, b, c] { v.extend_from_slice(part) }` over a literal array in a loop that does nothing else
+                # (Canon.seq unrolls the same form): the lengths of a, b, c
+                el_ = strip(a.elem)
+                arr_ = el_
+                for _ in range(8):
+                    if arr_ is None or arr_.k == 'aggr':
+                        break
+                    if arr_.k in ('field', 'downcast') and arr_.args:
+                        arr_ = strip(arr_.args[0])
+                    elif arr_.k == 'call' and last(arr_.name or '') in ('next', 'iter', 'into_iter', 'deref', 'as_slice') and arr_.args:
+                        arr_ = strip(arr_.args[0])
+                    else:
+                        arr_ = None
+                comp_ = next((c_ for c_ in fn.sccs() if a.block in c_), None)
+                if self.cn.c(a.elem).startswith('each(array{') and arr_ is not None and arr_.k == 'aggr' and arr_.name == 'array' and comp_ is not None \
+                        and sum(1 for b_ in comp_ if fn.blocks[b_]['term']['k'] == 'switch') == 1 \
+                        and sum(1 for x_ in apps if x_.in_loop and x_.block in comp_ and x_.kind not in KEEP_LEN) == 1:
+                    okp = True
+                    for part in arr_.args:
+                        n = self.length(part, a.block, depth + 1)
+                        if n[0] == n[1]:
+                            const += n[0]
+                        elif strip(part).k == 'param':
+                            k_ = 'len(%s)' % self.cn.c(part)
+                            atoms[k_] = atoms.get(k_, 0) + 1
+                        else:
+                            okp = False
+                    if okp:
+                        continue
+                    return None
             if a.in_loop or (after_possible and not before) or a.kind.startswith('other'):
                 return None
             if a.kind == 'bytesplit':
